@@ -108,6 +108,22 @@ def run(ctx, spec):
                 got_d = fn(cn2p, second, lam)
                 want_d = fn(cn2p, second, lam, axis=-1)
                 rel(ctx, name + ":default_axis", got_d, want_d, T, name + ":default_axis", {"shape": shape})
+        # the second profile with fewer / unit dimensions (one wind speed per profile, one altitude table for all profiles, ...):
+        # NumPy broadcasting against the trailing axes, whatever the integration axis
+        if rank >= 2:
+            kdrop = int(rng.integers(1, rank))
+            shp2 = tuple(sz if rng.random() < 0.7 else 1 for sz in shape[kdrop:])
+            for name, fn, lo, hi in (("isoplanaticAngle", ac.isoplanaticAngle, 1, 4.3), ("coherenceTime", ac.coherenceTime, 0, 1.7), ("rytov_variance", ac.rytov_variance, 1, 4.3)):
+                sec = 10 ** rng.uniform(lo, hi, shp2)
+                full = np.broadcast_to(sec, shape)
+                got = pure_call(ctx, name, fn, cn2p, sec, lam, axis)
+                a_m = np.moveaxis(cn2p, axis, -1).reshape(-1, shape[axis])
+                b_m = np.moveaxis(full, axis, -1).reshape(-1, shape[axis])
+                want = np.array([fn(a_m[i].copy(), b_m[i].copy(), lam) for i in range(a_m.shape[0])]).reshape(np.moveaxis(cn2p, axis, -1).shape[:-1])
+                ctx.count("broadcast_axis_cases")
+                wb = {"cn2_shape": shape, "second_shape": shp2, "axis": axis, "lambda": lam}
+                if ctx.check(np.shape(got) == want.shape, name + ":axis_vs_loop:broadcast_second_argument:shape", "result shape %s, expected %s" % (np.shape(got), want.shape), wb):
+                    rel(ctx, name + ":axis_vs_loop_broadcast", np.asarray(got), want, T, name + ":axis_vs_loop:broadcast_second_argument", wb)
         # one Cn2 profile against a stack of wind / altitude profiles (broadcasting), integer-typed altitudes and winds
         nl = int(rng.integers(2, 7))
         c1 = 10 ** rng.uniform(-16, -13, nl)
@@ -154,6 +170,13 @@ def run(ctx, spec):
         n = int(rng.integers(2, 12))
         mask = (rng.random((n, n)) < 0.7).astype(float)
         mask[0, 0] = 1
+        mkind = int(rng.integers(0, 4))
+        if mkind == 1:
+            mask = mask * float(rng.choice([0.5, 0.25, 0.9]))         # a partially transmitting pupil (beam splitter)
+        elif mkind == 2:
+            mask = mask * rng.uniform(0.05, 1.0, (n, n))               # grey edge pixels (anti-aliased / rebinned pupil)
+        elif mkind == 3:
+            mask = mask.astype(bool)
         px = float(10 ** rng.uniform(-2, 0.5))
         t = float(10 ** rng.uniform(-3, 2))
         pb = pure_call(ctx, "photons_per_band", ast.photons_per_band, mag, mask, px, t, band)
